@@ -36,6 +36,8 @@ pub fn pattern_matches_arguments(pattern: &Pattern, args: &Vec<Value>, env: &mut
       }
       Ok(true)
     }
+    // A wildcard matches anything, an argument list of any length included.
+    Pattern::Wildcard => Ok(true),
     _ => Ok(false),
   }
 }
